@@ -281,7 +281,7 @@ def _explore(acc, case, fx, workers, mode, init, judge):
         return
     t0 = time.time()
     # once a worker set has produced violations there is nothing more to decide for it: stop that exploration early
-    st = sched.explore_states(fx.make(workers, mode), judge, max_states=150000, should_stop=lambda: judge.nviol[0] >= 5)
+    st = sched.explore_states(fx.make(workers, mode), judge, max_states=150000, should_stop=lambda: len(acc.violations) >= 5)
     acc.states.update(range(0))  # (state hashes are kept inside the explorer; counts are added below)
     acc.count("states_" + "_".join(w[:4] for w in workers) + f"_{mode}_{init}", st["states"])
     acc.count("explorer_states", st["states"])
